@@ -21,10 +21,11 @@ def assert_valid_comodo(ds):
 
 
 def get_all_axes(ds):
-    axes = set()
+    # ordered (first appearance among the dataset's dimensions) and without duplicates
+    axes = []
     for d in ds.dims:
-        if "axis" in ds[d].attrs:
-            axes.add(ds[d].attrs["axis"])
+        if "axis" in ds[d].attrs and ds[d].attrs["axis"] not in axes:
+            axes.append(ds[d].attrs["axis"])
     return axes
 
 
